@@ -82,4 +82,15 @@ func init() {
 		Real: []string{"ChunkStorage", "ChopFile", "Copy", "ChunkStream", "IndexFromFile", "readChunkFromFile"},
 		Stub: []string{"source and target stores (fault injecting)", "scheduler"},
 	})
+	reg(&Prop{ID: "C11", Level: "exploration",
+		Quick:    Tier{Cases: 160000, PerJob: 10000, Seconds: 60},
+		Thorough: Tier{Cases: 8000000, PerJob: 100000, Seconds: 1500},
+		Rule: "one case = chain shape as the CLI builds it (router of 1..3 elements, each a store or a failover group of 2..4, optionally under a cache with or without repair, optionally under a SwapStore with a second chain swapped in by a reconfiguration task) x per-member content per id {has, missing, invalid} x per-member fault schedule {healthy, always failing, failing during calls k..k+j} x 1..4 client tasks issuing 1..8 Get/Has over 2..4 ids under the seeded scheduler; oracle: per operation the member calls made by that task must be exactly the calls the documented policy makes given the observed member outcomes, and the result must be what the policy yields (swap: old chain before, new chain after, exactly one of them when overlapping; old members closed once, after their in-flight requests, never used afterwards); distinct = distinct (shape, clients, trace hash, member-call count); non-trivial = preemption or member fault fired",
+		Assumptions: []string{
+			"which failover member is consulted at each attempt is not predicted (it depends on a shared index); the oracle bounds attempts by the group size and requires success whenever one member never fails",
+			"de-duplication queues in chains are covered by C12, not here",
+		},
+		Real: []string{"StoreRouter", "Cache", "RepairableCache", "FailoverGroup", "SwapStore"},
+		Stub: []string{"member stores (content + fault schedule, call log)", "scheduler"},
+	})
 }
